@@ -24,6 +24,11 @@ CHECKS["C18"] = dict(
    text="Number->string (String, concatenation, toString(radix), toFixed/toExponential/toPrecision for all digit counts, join, JSON), string->number (Number, unary plus, arithmetic, parseInt x radices, parseFloat), numeric literals and all discovered Math functions are compared with reference models using fractions.Fraction arithmetic and explicit grammars; ~7e5 cases in quick, 1.2e7 in thorough. Exact where ECMAScript is exact, validity predicates (reads back within 1 ulp) where it is implementation-approximated.",
    note="Trusts oracles/numfmt.py, numparse.py, mathref.py, prims.py (0 disagreements with node on the exactly specified cases at development time).",
    ref="4/C18")
+CHECKS["C14"] = dict(
+   technique="parameterised shape templates with closed-form results swept across the instruction-encoding boundaries (size metamorphic relation)",
+   text="12 operand-indexed shapes (locals, params, arguments, literals, constants, names, functions, captured variables, regex literals, switch cases) with n across 254..257/511..513/1000 and 14 byte-offset shapes (if/else, loops with break/continue, try, switch, logical/plus chains, string literal) sized from the measured bytecode bytes per statement to sit just below/at/above 256, 32768, 65536, 70000, 131072 and 200000 bytes, each at top level, in a function and in a callback. The result must equal the closed form, or eval must refuse with a JSError about size before anything ran (host flag).",
+   note="Expected values are closed forms computed by the check. The byte sizing reads Compiler output when importable (fail-soft to a wide sweep).",
+   ref="4/C14")
 NA = {}
 m = {
  "version": 1,
